@@ -150,6 +150,9 @@ func cmdCheck(args []string) int {
 			fmt.Printf("UNRESOLVED property=%s rule=load variant=%s reason=%v\n", ps.ID, v.Name, err)
 			return 2
 		}
+		for _, h := range debugHooks {
+			h(p)
+		}
 		rep := runRules(ps, p, deep)
 		nfuncs := len(p.Funcs)
 		analysed = append(analysed, map[string]interface{}{"variant": v.Name, "tags": v.Tags, "packages": len(p.Pkgs), "files": p.NFiles, "functions": nfuncs})
@@ -528,3 +531,6 @@ func cmdRules() int {
 	}
 	return 0
 }
+
+// debugHooks run on the loaded program before the rules (developer diagnostics, enabled by environment variables).
+var debugHooks []func(p *Program)
